@@ -396,6 +396,11 @@ func runC16(c *Ctx) {
 	c.ruleLifecycleHelpers("Q10-instances-run-the-published-builder")
 	c.only = nil
 	c.Min("Q10-instances-run-the-published-builder", 2)
+	// what a request on an emptied pool gets back are the results of the rules installed now: none. Every
+	// engine method starts from a fresh result map before anything else, also before its "no rule" error
+	// return (C11-M1) -- otherwise the instance hands back the results of rules that were removed since
+	c.ruleM1("Q11-no-results-of-removed-rules", c.engineExecFns())
+	c.Min("Q11-no-results-of-removed-rules", 21)
 	// RemoveRules of the pool applies the builder's removal to the master and to every instance: what
 	// the queries and the executions see afterwards is what that removal leaves installed (shared with C08-H6)
 	c.ruleFullBuildAndRemoval("Q7-removal-reinstalls")
